@@ -23,6 +23,7 @@ type Op struct {
 	Typ   string   `json:"t,omitempty"` // ref: type name; fn: callee; slice: prefix width; cond: predicate; const: value
 	Sub   []Op     `json:"s,omitempty"`
 	Cases []OpCase `json:"c,omitempty"`
+	Args  []string `json:"-"` // fn: the paths of all non-coder arguments, in order (mirror comparison only)
 	Pos   token.Pos `json:"-"`
 }
 
@@ -1396,13 +1397,16 @@ func (w *wireWalker) call(c *ast.CallExpr, lhs string) []Op {
 			}
 			// plain function taking the coder
 			path := ""
+			var all []string
 			for _, a := range c.Args {
 				if !isCoderExpr(w, a) {
-					path = w.pathOf(a)
-					break
+					if len(all) == 0 {
+						path = w.pathOf(a)
+					}
+					all = append(all, w.pathOf(a))
 				}
 			}
-			return append(w.argOpsNoCoder(c.Args, lhs), Op{Kind: "fn", Typ: funcFullName(fn), Path: path, Pos: c.Pos()})
+			return append(w.argOpsNoCoder(c.Args, lhs), Op{Kind: "fn", Typ: funcFullName(fn), Path: path, Args: all, Pos: c.Pos()})
 		}
 	}
 	// call of a function value (method expression / param) that takes the coder
